@@ -174,17 +174,23 @@ CLAIMS = {
              "outside the property's operation list.",
         tech="Lean 4 proof (invariants over operation histories) + history-level differential correspondence"),
     'C05': dict(
-        text="PARTIAL. Proved: the cache index (C20: entries, check, exact retrieval on prefix-uniform tries, counter-witness) and "
+        text="PARTIAL. Proved: (a) the cache index (C20: entries, check, exact retrieval on prefix-uniform tries, counter-witness) and "
              "c05_single_key_uniform / c05_single_key_exact (every operator cache of a single-variable query stays prefix-uniform, "
-             "so its retrieval is exact after every history). NOT proved: that the evaluator's use of the index is transparent (no "
-             "cache-aware evaluator model). Decided by the differential check: caching on vs off vs oracle, two evaluations, over "
-             "joins (1-4 variables, shuffled declaration order), disjunctions over equal/different variable sets, negation, "
-             "sub-queries, for_all, flatten, rule trees, with the number of cache hits taken reported. The full statement is false "
-             "of the code: known findings C05-F1..F4.",
-        note=BASE_NOTE + "A difference is attributed to a finding only inside its scope and only when caching off gives the "
-             "specified rows; a mutation that changes behaviour inside a finding's scope in a way that is still wrong may be "
-             "masked (stated limit of not having the L2 model).",
-        tech="Lean 4 proof for the index and single-key caches + differential (cache on/off/oracle) correspondence"),
+             "so its retrieval is exact after every history); (b) THE EVALUATOR with the result cache enabled, for conjunctive "
+             "single-variable queries: c05_single_variable_conj - each of any number of consecutive evaluations of the query object "
+             "by the L2 machine (Machine.lean: caching branches of Comparator/AND, coverage poisoning, update_cache, "
+             "yield_final_output_from_cache) returns exactly the L1 rows, in order - and c05_single_variable_conj_on_off (the same "
+             "rows as with the cache disabled, from any state). NOT proved: other shapes (disjunctions, several variables - for "
+             "which the full statement is false of the code: known findings C05-F1..F5). Decided there by the differential check: "
+             "caching on vs off vs oracle vs the L2 machine, first and later evaluations (a third of the join cases after an "
+             "abandoned evaluation), over joins (1-4 variables, shuffled declaration order), disjunctions over equal/different "
+             "variable sets, negation, sub-queries, for_all, flatten, rule trees, with the number of cache hits taken reported.",
+        note=BASE_NOTE + "A difference is attributed to C05-F1/F2 only when the L2 machine, which transliterates the cache code, "
+             "reproduces the implementation's rows; to F3/F4/F5 (no model reproduces them) only inside their scope and when caching "
+             "off gives the specified rows: a mutation that changes behaviour inside those three scopes in a way that is still "
+             "wrong may be masked.",
+        tech="Lean 4 proof (cache index; evaluator with caches for single-variable conjunctive queries, induction over the tree "
+             "with a specification per operator cache) + differential (cache on/off/oracle/L2 machine) correspondence"),
     'C07': dict(
         text="Iter.lean: generator-style evaluation over a memoised one-shot domain. c07_no_work_before_first, c07_prefix (at the "
              "k-th result exactly the prefix ending at the k-th qualifying element has been pulled; list equality), c07_pull_once "
